@@ -357,7 +357,7 @@ def case_panic(rng):
 def case_roles(rng):
     """C20: who writes a resource, who reads it and who requires whom depends on a switch resource."""
     sw = 1
-    variant = rng.choice(["writer", "reader", "require"])
+    variant = rng.choice(["writer", "reader", "require", "emit", "emit"])
     lines = []
     if variant == "writer":
         # W1 writes g while sw=0, W2 while sw=1; R requires the current writer and reads g
@@ -370,6 +370,13 @@ def case_roles(rng):
         lines += ["task 1 read 1 0 if = v 0 k 0 read 5 0 ret v 1 ret k 0",
                   "task 2 read 1 0 if = v 0 k 1 write 5 0 some k 9 ret k 1 ret k 0"]
         roots = [1, 2]
+    elif variant == "emit":
+        # state 0: Emit(2) requires Gen(3), Gen writes MK(10); state 1: Gen writes nothing, Emit writes MK(10) itself;
+        # Top(1) requires Emit only in state 1.  Exactly one writer and no cycle in every state.
+        lines += ["task 3 read 1 0 if = v 0 k 0 write 10 0 some k 7 ret k 1 ret k 0",
+                  "task 2 read 1 0 if = v 0 k 0 req 3 4 ret k 2 write 10 0 some k 8 ret k 3",
+                  "task 1 read 1 0 if = v 0 k 0 ret k 9 req 2 0 ret + v 1 k 1"]
+        roots = [1, 2, 3]
     else:
         # sw=0: A requires B; sw=1: B requires A
         lines += ["task 1 read 1 0 if = v 0 k 0 req 2 0 ret + v 1 k 1 ret k 5",
@@ -379,7 +386,7 @@ def case_roles(rng):
     for _ in range(rng.randint(2, 5)):
         rs = [rng.choice(roots) for _ in range(rng.randint(1, 2))]
         hist.append("session")
-        if rng.random() < 0.3: hist.append("bu 1")
+        if rng.random() < (0.6 if variant == "emit" else 0.3): hist.append("bu 1")
         hist += [f"req {t}" for t in rs] + ["endsession", "cleannodes"]
         hist.append(f"set 1 {rng.randint(0, 1)}")
     return lines + hist, dict(role_change=variant)
